@@ -1,4 +1,8 @@
 SPECIFICATION Spec
+CONSTANTS FixZ = TRUE
+FixDeg = TRUE
+FixZeroL = TRUE
+ForgetCp = TRUE
 INVARIANT Conforms
 POSTCONDITION AcceptedLinear
 CHECK_DEADLOCK FALSE
